@@ -53,6 +53,12 @@ CHECKS.update({
                           "the whole stack as one read and under all 2^(n-1) cut sets of the frame part (n <= 7 quick / 11 thorough), cuts at every position around the "
                           "reply terminator and one byte per read; Mon_C02 (TLC) demands identical observables.",
             "level_note": _NOTE + "Cut sets are enumerated by the harness over the concrete bytes; longer streams get seeded random cut sets; time is frozen."},
+    "C03": {"technique": "explicit TLA+ API table and wire operators (spec/GenC03.tla, spec/Wire.tla) checked by TLC; every row replayed into the real code; recorded call traces judged by the TLA+ monitor Mon_C03 evaluated by TLC",
+            "level_text": "TLC checks the data-level facts the property rests on (shortest length form at every boundary, header encode/decode round trip over all bit combinations, "
+                          "masking is an involution with key byte i mod 4, close payload round trip) and prints the API table (method x argument class -> frame/reject); every row is "
+                          "executed on a Ready connection of the real code (compression negotiated or not, several masking keys), what was handed to sendall is decoded by an independent "
+                          "server-side decoder (and inflated by an independent zlib peer), and Mon_C03 (TLC) judges each call.",
+            "level_note": _NOTE + "481 table rows x 2 (quick) / 4 masking keys; payload lengths at the 125/126, 65535/65536 boundaries. close() with a wrong-typed code is outside the statement's classes."},
     "C14": _sess("Mon_C14", "pongs = answerable pings (payload, order, multiplicity), each written before its Ping event; none with auto_pong off; failing pong writes do not disturb the event stream (twin run)",
                  "<= 3 (quick) / 4 frames incl. 125-byte all-byte-values ping blobs, several items per read, application send/close reactions, failing writes."),
 })
